@@ -4,12 +4,15 @@
    harness reads storage/*.go with go/parser on every run and emits the list (harness/c19_translate.go).
    This file defines
      - the shape of that data: the top-level statement sequence of a method, where a mutex
-       acquisition [SAcq] is the pair `s.xMutex.Lock()/RLock(); defer s.xMutex.Unlock()/RUnlock()`
-       and [SItems] is the flow-insensitive summary of any other statement (the table accesses and
-       the calls to other methods of the store that occur anywhere inside it);
+       acquisition [SAcq] is the pair `s.xMutex.Lock()/RLock(); defer s.xMutex.Unlock()/RUnlock()`,
+       [SLock]/[SUnlock] are a top-level Lock/RLock without defer and a top-level explicit
+       Unlock/RUnlock, [SRet] marks a point where the method may return (the preceding statement
+       contains a `return`), and [SItems] is the flow-insensitive summary of any other statement
+       (the table accesses and the calls to other methods of the store that occur anywhere inside it);
      - the events a thread executes, and the set of event sequences ("paths") a method can produce:
-       any control flow through the summarised statements (branches, loops, early returns), calls
-       expanded by a path of the callee, deferred releases in LIFO order at the end;
+       any control flow through the summarised statements (branches, loops, returns at the marked
+       points), calls expanded by a path of the callee, deferred releases in LIFO order at a return
+       (explicitly locked mutexes are NOT released by a return: a leak is a rejected shape);
      - the reflective checker [lock_discipline_ok] (guards and lock order are INFERRED from the
        data, then verified) and the diagnostic tags used by the monitor;
      - a small-step semantics of threads over Go's sync.RWMutex (writer preference: a writer first
@@ -26,6 +29,9 @@ Inductive item :=
 
 Inductive stmt :=
 | SAcq (m : string) (md : mode)      (* Lock/RLock of mutex field m, released by defer *)
+| SLock (m : string) (md : mode)     (* Lock/RLock at the top level WITHOUT a defer: stays held until an explicit unlock *)
+| SUnlock (m : string)               (* explicit Unlock/RUnlock at the top level *)
+| SRet                               (* the method may return here (the preceding statement contains a return) *)
 | SItems (its : list item).          (* everything that occurs inside one other top-level statement *)
 
 Record method := Meth { m_name : string; m_body : list stmt }.
@@ -87,24 +93,31 @@ Fixpoint run (G : guards) (rk : ranks) (h : hset) (evs : list event) : option hs
   end.
 
 (* ------------------------------------------------------------------ paths of a method *)
-Definition releases (stack : hset) : list event := map (fun p => Rel (fst p)) stack.
+Definition releases (ds : list string) : list event := map Rel ds.
 
-(* [bpath ms stack body p]: p is a possible event sequence of the remaining top-level statements
-   [body] of a method that has so far acquired [stack]; it ends with the deferred releases.
-   [bp_stop] with a non-empty body is an early return. *)
-Inductive bpath (ms : list method) : hset -> list stmt -> list event -> Prop :=
-| bp_stop stack body : bpath ms stack body (releases stack)
-| bp_acq stack m md rest p :
-    bpath ms ((m, md) :: stack) rest p -> bpath ms stack (SAcq m md :: rest) (Acq m md :: p)
-| bp_next stack its rest p :
-    bpath ms stack rest p -> bpath ms stack (SItems its :: rest) p
-| bp_acc stack its rest t a p :
-    In (IAcc t a) its -> bpath ms stack (SItems its :: rest) p ->
-    bpath ms stack (SItems its :: rest) (Acc t a :: p)
-| bp_call stack its rest f fb q p :
+(* [bpath ms ds body p]: p is a possible event sequence of the remaining top-level statements
+   [body] of a method whose deferred unlocks so far are [ds] (most recent first).  A method returns
+   at the end of its body or at a return point [SRet]; the deferred unlocks then run in LIFO order.
+   Mutexes locked explicitly ([SLock]) are NOT released by a return. *)
+Inductive bpath (ms : list method) : list string -> list stmt -> list event -> Prop :=
+| bp_end ds : bpath ms ds [] (releases ds)
+| bp_ret ds rest : bpath ms ds (SRet :: rest) (releases ds)
+| bp_ret_skip ds rest p : bpath ms ds rest p -> bpath ms ds (SRet :: rest) p
+| bp_acq ds m md rest p :
+    bpath ms (m :: ds) rest p -> bpath ms ds (SAcq m md :: rest) (Acq m md :: p)
+| bp_lock ds m md rest p :
+    bpath ms ds rest p -> bpath ms ds (SLock m md :: rest) (Acq m md :: p)
+| bp_unlock ds m rest p :
+    bpath ms ds rest p -> bpath ms ds (SUnlock m :: rest) (Rel m :: p)
+| bp_next ds its rest p :
+    bpath ms ds rest p -> bpath ms ds (SItems its :: rest) p
+| bp_acc ds its rest t a p :
+    In (IAcc t a) its -> bpath ms ds (SItems its :: rest) p ->
+    bpath ms ds (SItems its :: rest) (Acc t a :: p)
+| bp_call ds its rest f fb q p :
     In (ICall f) its -> lookup_method f ms = Some fb -> bpath ms [] fb q ->
-    bpath ms stack (SItems its :: rest) p ->
-    bpath ms stack (SItems its :: rest) (q ++ p)%list.
+    bpath ms ds (SItems its :: rest) p ->
+    bpath ms ds (SItems its :: rest) (q ++ p)%list.
 
 (* a complete execution of method f *)
 Definition mpath (ms : list method) (f : string) (p : list event) : Prop :=
@@ -119,18 +132,26 @@ Inductive tpath (ms : list method) : list event -> Prop :=
 Inductive fact :=
 | FAcc (meth tbl : string) (a : mode) (h : hset)      (* access in method meth with h held (callers' locks included) *)
 | FAcq (meth m : string) (md : mode) (h : hset)       (* acquisition of m with h held *)
+| FRel (meth m : string) (acq : hset)                 (* explicit unlock of m; acq = what the method itself holds *)
+| FRet (meth : string) (acq : hset) (ds : list string)  (* return point: acq held by the method, ds its deferred unlocks *)
 | FErr (meth what : string).                          (* recursion between methods / unknown callee *)
 
-Fixpoint facts_stmts (callf : hset -> string -> list fact) (cur : string) (h : hset) (body : list stmt) : list fact :=
+(* acq: acquired by the method so far (most recent first); base: held by the callers;
+   ds: deferred unlocks *)
+Fixpoint facts_stmts (callf : hset -> string -> list fact) (cur : string) (acq base : hset) (ds : list string)
+         (body : list stmt) : list fact :=
   match body with
-  | [] => []
-  | SAcq m md :: rest => FAcq cur m md h :: facts_stmts callf cur ((m, md) :: h) rest
+  | [] => [FRet cur acq ds]
+  | SAcq m md :: rest => FAcq cur m md (acq ++ base)%list :: facts_stmts callf cur ((m, md) :: acq) base (m :: ds) rest
+  | SLock m md :: rest => FAcq cur m md (acq ++ base)%list :: facts_stmts callf cur ((m, md) :: acq) base ds rest
+  | SUnlock m :: rest => FRel cur m acq :: facts_stmts callf cur (remove_first m acq) base ds rest
+  | SRet :: rest => FRet cur acq ds :: facts_stmts callf cur acq base ds rest
   | SItems its :: rest =>
       (flat_map (fun it => match it with
-                           | IAcc t a => [FAcc cur t a h]
-                           | ICall f => callf h f
+                           | IAcc t a => [FAcc cur t a (acq ++ base)%list]
+                           | ICall f => callf (acq ++ base)%list f
                            end) its
-       ++ facts_stmts callf cur h rest)%list
+       ++ facts_stmts callf cur acq base ds rest)%list
   end.
 
 (* calls are expanded in the context of the caller's held set; fuel bounds the call depth *)
@@ -141,7 +162,7 @@ Fixpoint facts (fuel : nat) (ms : list method) (cur : string) (h : hset) (body :
       facts_stmts (fun h' g => match lookup_method g ms with
                                | Some gb => facts fuel' ms g h' gb
                                | None => [FErr cur ("unknown-callee-" ++ g)]
-                               end) cur h body
+                               end) cur [] h [] body
   end.
 
 Definition depth (ms : list method) : nat := S (List.length ms).
@@ -162,7 +183,7 @@ Definition mutexes_of (fs : list fact) : list string :=
   fold_left (fun acc f => match f with
                           | FAcq _ m _ h => add_new m (fold_left (fun a p => add_new (fst p) a) h acc)
                           | FAcc _ _ _ h => fold_left (fun a p => add_new (fst p) a) h acc
-                          | FErr _ _ => acc
+                          | _ => acc
                           end) fs [].
 
 Definition covers (g : string) (a : mode) (h : hset) : bool :=
@@ -209,10 +230,19 @@ Definition infer_ranks (fs : list fact) : ranks :=
   iter (S (List.length mx)) (relax (edges_of fs)) (map (fun m => (m, 0)) mx).
 
 (* ------------------------------------------------------------------ the checker *)
+(* the deferred unlocks at a return point: each must be held, and nothing may remain held *)
+Fixpoint release_all (ds : list string) (h : hset) : option hset :=
+  match ds with
+  | [] => Some h
+  | m :: r => if holds m h then release_all r (remove_first m h) else None
+  end.
+
 Definition fact_ok (G : guards) (rk : ranks) (f : fact) : bool :=
   match f with
   | FAcc _ t a h => acc_ok G h t a
   | FAcq _ m _ h => acq_ok rk h m
+  | FRel _ m acq => holds m acq
+  | FRet _ acq ds => match release_all ds acq with Some [] => true | _ => false end
   | FErr _ _ => false
   end.
 
@@ -239,6 +269,11 @@ Definition fact_tag (G : guards) (rk : ranks) (f : fact) : option string :=
   | FAcc meth t _ _ => Some ("unguarded:" ++ meth ++ ":" ++ t)
   | FAcq meth m _ h => if holds m h then Some ("reacquire:" ++ meth ++ ":" ++ m)
                        else Some ("lockorder:" ++ meth ++ ":" ++ first_bad_order rk h m ++ ">" ++ m)
+  | FRel meth m _ => Some ("unlock-not-held:" ++ meth ++ ":" ++ m)
+  | FRet meth acq ds => match release_all ds acq with
+                        | Some (p :: _) => Some ("held-at-return:" ++ meth ++ ":" ++ fst p)
+                        | _ => Some ("deferred-unlock-not-held:" ++ meth)
+                        end
   | FErr meth what => Some ("calls:" ++ meth ++ ":" ++ what)
   end.
 
